@@ -90,6 +90,20 @@ pub fn gen_c02(rng: &mut Rng, thorough: bool) -> Vec<Tagged> {
         out.push((format!("{}-boundary-fwd", kind), Case::Net(spec.clone(), NetCmd::Forward(x.clone()))));
         out.push((format!("{}-boundary-fwd-flatinput", kind), Case::Net(spec, NetCmd::Forward(flat_version(&x)))));
     }
+    // parameters in a special relation (stride == kernel, 1x1 kernels with padding and stride, overhanging
+    // kernels, ...): forward, both input representations
+    for (inp, l) in special_relation_layers() {
+        if out_shape(&l, inp).is_none() {
+            continue;
+        }
+        let mut spec = NetSpec::new(inp.to_shape());
+        spec.weights = Some(vec![LW::One(rand_w(rng, &l, inp, 1))]);
+        let kind = l.kind();
+        spec.layers.push(LayerSpec::One(l));
+        let x = rand_input(rng, inp, 0);
+        out.push((format!("{}-special-relation-fwd", kind), Case::Net(spec.clone(), NetCmd::Forward(x.clone()))));
+        out.push((format!("{}-special-relation-fwd-flatinput", kind), Case::Net(spec, NetCmd::Forward(flat_version(&x)))));
+    }
     // special input values (infinities, NaN, huge, denormal, signed zeros) through every layer kind,
     // both representations: the defining operator is applied to whatever arrives
     {
@@ -340,6 +354,17 @@ pub fn gen_c08(rng: &mut Rng, thorough: bool) -> Vec<Tagged> {
         out.push(("spatial-block-then-next-shapes".into(), Case::Net(spec.clone(), NetCmd::Shapes)));
         out.push(("spatial-block-then-next-produced".into(), Case::Net(spec, NetCmd::Forward(rand_input(rng, input, 0)))));
     }
+    // (a4) parameters in a special relation (see netgen::special_relation_layers): announced = produced
+    for (inp, l) in special_relation_layers() {
+        let mut spec = NetSpec::new(inp.to_shape());
+        let kind = l.kind();
+        spec.layers.push(LayerSpec::One(l.clone()));
+        out.push((format!("{}-special-relation-shapes", kind), Case::Net(spec.clone(), NetCmd::Shapes)));
+        if out_shape(&l, inp).is_some() {
+            spec.weights = Some(vec![LW::One(rand_w(rng, &l, inp, 1))]);
+            out.push((format!("{}-special-relation-produced", kind), Case::Net(spec, NetCmd::Forward(rand_input(rng, inp, 0)))));
+        }
+    }
     // (b) flat -> spatial transitions for every flat size (perfect squares and not)
     let maxn = if thorough { 150 } else { 50 };
     for n in 1..=maxn {
@@ -547,6 +572,29 @@ pub fn gen_c01(rng: &mut Rng, thorough: bool) -> Vec<Tagged> {
         let x = rand_input(rng, inp, 2);
         let g = rand_input(rng, osh, 1);
         out.push((format!("{}-boundary-layer-bwd", kind), Case::Net(spec, NetCmd::LayerBackward(0, x, g))));
+    }
+    // parameters in a special relation (see netgen::special_relation_layers): layer-level backward, and the
+    // layer inside a network (behind a 1x1 convolution, so that the input gradient is used as well)
+    for (k, (inp, l)) in special_relation_layers().into_iter().enumerate() {
+        let osh = match out_shape(&l, inp) { Some(s) => s, None => continue };
+        let mut spec = NetSpec::new(inp.to_shape());
+        spec.weights = Some(vec![LW::One(rand_w(rng, &l, inp, 1))]);
+        let kind = l.kind();
+        spec.layers.push(LayerSpec::One(l.clone()));
+        let x = rand_input(rng, inp, 2);
+        let g = rand_input(rng, osh, 1);
+        out.push((format!("{}-special-relation-layer-bwd", kind), Case::Net(spec, NetCmd::LayerBackward(0, x, g))));
+        if let Sh::Sp(c, _, _) = inp {
+            let first = Simple::Conv { filters: c, kernel: (1, 1), stride: (1, 1), padding: (0, 0), dilation: (1, 1), act: Act::Tanh, dropout: None };
+            let mut net = NetSpec::new(inp.to_shape());
+            net.weights = Some(vec![LW::One(rand_w(rng, &first, inp, 1)), LW::One(rand_w(rng, &l, inp, 1))]);
+            net.layers.push(LayerSpec::One(first));
+            net.layers.push(LayerSpec::One(l));
+            net.obj = Obj::MSE;
+            if k % 2 == 0 || thorough {
+                out.push((format!("{}-special-relation-net-bwd", kind), Case::Net(net, NetCmd::Backward(rand_input(rng, inp, 2), rand_target(rng, osh, Obj::MSE)))));
+            }
+        }
     }
     for &n in &[31usize, 32, 33, 65] {
         let d = Simple::Dense { out: 3, act: Act::Tanh, bias: true, dropout: None };
